@@ -13,6 +13,7 @@ import (
 	"math/rand"
 	"sort"
 	"strings"
+	"time"
 
 	"github.com/mycoria/mycoria/m"
 
@@ -24,6 +25,7 @@ type quietInfo struct {
 	round    int
 	relinked []map[string]any
 	links    any
+	clocks   map[int]time.Duration // clocks.go: the routers whose clock differs, at that moment
 }
 
 // freshLabel returns a label that router x does not use (and that is not `not`), of the class of `like` or of any class.
